@@ -399,7 +399,9 @@ PROPS = {
              "set at random, auxiliary data of three shapes attached, optional zxcvbn policy that one user's password "
              "fails; 8 logins each with right / wrong passwords; the directory is polled on the otherwise idle agent; in "
              "half of the local-mode agents a saturation prelude first serves upgradeable logins while the update queue "
-             "is full (their upgrade requests are dropped) and the idle logins afterwards must still upgrade; "
+             "is full (their upgrade requests are dropped) and the idle logins afterwards must still upgrade; in half of the "
+             "remote-mode agents the master's front end answers 503 to fourteen upgrade requests first and the idle "
+             "logins afterwards must get the master's records upgraded; "
              "digests recomputed with x/crypto.",
         trusted=[T_CRYPTO, T_GO, "zxcvbn-go"],
         partial=["'on an otherwise idle agent the rewrite does happen' is observed with a 400 ms wait (scheduling), not proved"],
@@ -415,7 +417,8 @@ PROPS = {
              "boundary, responses over message lengths around every limit, decoder inputs (encoder output, "
              "truncations, bit flips, insertions, raw boundary-length parts, random bytes, fuzz-corpus shapes), "
              "each decoded under several fragmentations (whole, 1-byte reads, random cuts with zero-length "
-             "reads, EOF with the last data or separate).",
+             "reads, EOF with the last data or separate); a sixth of the encodes are preceded by an encode of another "
+             "message into a writer that breaks after 0-5 bytes (the output may not depend on it).",
         trusted=[T_GO + ": bufio.Scanner (modelled explicitly in Model/Sasl.lean: decodeChunks)"],
         partial=["more than 100 consecutive zero-length reads make bufio.Scanner give up (io.ErrNoProgress); "
                  "the model takes read sequences without such runs"],
